@@ -509,6 +509,11 @@ func (s *storage) readFiles(path string) int {
 				fileCount += s.readFiles(filepath.Join(path, n))
 				continue
 			}
+			if path == s.path && (n == "atimes" || n == "atimes-truncated") {
+				// the access time log is not an entry
+				fileCount -= 1
+				continue
+			}
 			name := fi.Name()
 			size := fi.Size()
 			sizeBytes += size
